@@ -19,27 +19,42 @@ PID = "C02"
 
 
 def mc(chk, tier):
+    """HexISAMC over every 3-word image from an alphabet of instruction bytes.  Four alphabets, one per group of opcodes (each with the
+    prefixes, a small LDAC and SVC), so that every named action of the state machine is taken; TLC's action coverage is read back and an
+    action that was never taken is a vacuity failure."""
     r = vlib.rng(2)
-    core = [0xD3, 0xE0 | r.randrange(16), 0xF0 | r.randrange(16), 0x30 | r.randrange(16), 0x10 | r.randrange(4),
-            0x80 | r.randrange(8), 0xD0 | r.randrange(3)]
-    extra = [r.randrange(256) for _ in range(1 if tier == "quick" else 3)]
-    B = sorted(set(core + extra))
-    s16 = lambda x: x - 65536 if x >= 32768 else x
-    alpha = sorted({s16(a | (b << 8)) for a in B for b in B})
+    groups = [[0x00, 0x10, 0x20, 0x30], [0x40, 0x50, 0x60, 0x70], [0x80, 0x90, 0xA0, 0xB0], [0xD0, 0xD1, 0xD2, 0xC0]]
     d = vlib.rundir("c02mc")
-    open(os.path.join(d, "MCrun.tla"), "w").write(
-        "---- MODULE MCrun ----\nEXTENDS HexISAMC\nAlphaSet == {%s}\nInBytes == <<65, 200>>\n====\n" % ", ".join(map(str, alpha)))
-    open(os.path.join(d, "MCrun.cfg"), "w").write(
-        "SPECIFICATION Spec\nCONSTANTS\n  BPW = 2\n  MemWords = 12\n  ImgWords = 3\n  Alphabet <- AlphaSet\n"
-        "  InputBytes <- InBytes\n  MaxSteps = %d\nINVARIANTS TypeOK OregClear InRangeMem\nPROPERTIES Monotone OneStep\n"
-        "CHECK_DEADLOCK FALSE\n" % (12 if tier == "quick" else 20))
-    res = vlib.tlc("MCrun", cfg="MCrun.cfg", workers=vlib.NCPU, cwd=d, heap="8g", timeout=3000)
+    jobs = []; alphas = []
+    for g, ops in enumerate(groups):
+        core = [0xD3, 0xE0 | r.randrange(16), 0xF0 | r.randrange(16), 0x30 | r.randrange(3)] + [(o | r.randrange(4)) if o < 0xC0 else o for o in ops]
+        extra = [r.randrange(256) for _ in range(0 if tier == "quick" else 2)]
+        B = sorted(set(core + extra))
+        s16 = lambda x: x - 65536 if x >= 32768 else x
+        alpha = sorted({s16(a | (b << 8)) for a in B for b in B})
+        alphas.append(["%02x" % b for b in B])
+        open(os.path.join(d, "MCrun%d.tla" % g), "w").write(
+            "---- MODULE MCrun%d ----\nEXTENDS HexISAMC\nAlphaSet == {%s}\nInBytes == <<65, 200>>\n====\n" % (g, ", ".join(map(str, alpha))))
+        open(os.path.join(d, "MCrun%d.cfg" % g), "w").write(
+            "SPECIFICATION Spec\nCONSTANTS\n  BPW = 2\n  MemWords = 12\n  ImgWords = 3\n  Alphabet <- AlphaSet\n"
+            "  InputBytes <- InBytes\n  MaxSteps = %d\nINVARIANTS TypeOK OregClear InRangeMem\nPROPERTIES Monotone OneStep\n"
+            "CHECK_DEADLOCK FALSE\n" % (10 if tier == "quick" else 16))
+        jobs.append(dict(module="MCrun%d" % g, cfg="MCrun%d.cfg" % g, workers=4, cwd=d, heap="6g", timeout=3000, coverage=True))
+    results = vlib.tlc_parallel(jobs, nproc=4)
     shutil.rmtree(d, ignore_errors=True)
-    chk.add("states", res.distinct)
-    chk.add("transitions", res.states)
-    chk.set("mc_alphabet_bytes", ["%02x" % b for b in B])
-    if res.violation:
-        chk.violation("spec-HexISAMC", "TLC found a violated property in HexISAMC (the specification itself):\n" + res.out[-2500:])
+    taken = {}
+    for res in results:
+        chk.add("states", res.distinct)
+        chk.add("transitions", res.states)
+        for a, n in res.coverage().items():
+            taken[a] = taken.get(a, 0) + n
+        if res.violation:
+            chk.violation("spec-HexISAMC", "TLC found a violated property in HexISAMC (the specification itself):\n" + res.out[-2500:])
+    chk.set("mc_alphabet_bytes", alphas)
+    acts = ["ILDAM", "ILDBM", "ISTAM", "ILDAC", "ILDBC", "ILDAP", "ILDAI", "ILDBI", "ISTAI", "IBR", "IBRZ", "IBRN", "IPFIX", "INFIX", "IBRB", "IADD", "ISUB",
+            "ISVCExit", "ISVCWrite", "ISVCRead", "IUndefined"]
+    chk.set("mc_action_coverage", {a: taken.get(a, 0) for a in acts})
+    chk.vacuity([a for a in acts if taken.get(a, 0) == 0], "HexISAMC: an instruction's action was never taken: %s" % [a for a in acts if taken.get(a, 0) == 0])
 
 
 def steps(chk, tier, exe, d):
